@@ -55,7 +55,7 @@ def cases(draw):
         nedits = 0 if mode == "valid" else draw(st.integers(1, 3))
         for _ in range(nedits):
             op = draw(st.sampled_from(["junk", "other", "empty", "star", "last", "dstar", "alias", "comma",
-                                       "drop", "dup", "append", "ctrl_in", "ctrl_end", "ctrl_start", "case"]))
+                                       "drop", "dup", "append", "ctrl_in", "ctrl_end", "ctrl_start", "case", "colon_in"]))
             i = draw(st.integers(0, max(0, len(segs) - 1)))
             if not segs and op not in ("append",):
                 op = "append"
@@ -94,6 +94,10 @@ def cases(draw):
                 segs[0] = draw(st.sampled_from(gens.CONTROL)) + segs[0]
             elif op == "case":
                 segs[i] = segs[i].swapcase()
+            elif op == "colon_in":
+                # a ':' inside a value (only a uri prefix can carry such a string to a type: see 'uri:' below)
+                pos = draw(st.integers(0, len(segs[i])))
+                segs[i] = segs[i][:pos] + ":" + segs[i][pos:]
             labels.append("edit:" + op)
         s = "/".join(segs)
         if nedits == 0:
@@ -147,6 +151,12 @@ def evaluate(case) -> Outcome:
         out.nontrivial = True
         return out
     got = snap(sid)
+    # a Sid object passed through Sid() again denotes the same Sid (objects are passed on by every Finder / Getter / Writer)
+    ok2, again = call(Sid, sid)
+    if not ok2:
+        out.add(f"C01/sid-of-sid/raises/{exc_sig(again)}", f"Sid(Sid({s!r})) raised {again!r}")
+    elif got["type"] and snap(again) != got:
+        out.add("C01/sid-of-sid-differs", f"Sid({s!r}) -> {got}, passed through Sid() again -> {snap(again)}")
     if "?" in s:
         base = s.split("?", 1)[0]
         out.label("weak-oracle:query-tail")
